@@ -135,8 +135,8 @@ func c19Caps(c *Ctx) {
 			}
 		}
 	}
-	if n < 4 {
-		c.Unk("cap-before-fetch#count", "vacuity guard: FetchAll sites in the registry package", "-", fmt.Sprintf("%d sites, 4 confirmed by reading", n))
+	if n < 2 {
+		c.Unk("cap-before-fetch#count", "vacuity guard: the registry package fetches at least a manifest and a blob", "-", fmt.Sprintf("%d sites (4 on the reference tree)", n))
 	}
 }
 
